@@ -665,7 +665,25 @@ class Interp:
         raise Unsupported('binop ' + op)
 
     # --- function resolution
+    def fn_type_params(self, f):
+        if not f.file:
+            return []
+        name = self.last_seg(f.name)
+        txt = open(SRC_ROOT + '/' + f.file).read()
+        m = re.search(r'fn ' + re.escape(name) + r'<([^>(]*)>\s*\(', txt)
+        if not m:
+            return []
+        out = []
+        for part in m.group(1).split(','):
+            part = part.strip()
+            if part and not part.startswith("'"):
+                out.append(part.split(':')[0].strip())
+        return out
+
     def resolve(self, callee, caller):
+        sub = getattr(self, 'subst', [{}])[-1]
+        for k, v in sub.items():
+            callee = re.sub(r'<' + k + r' as ', '<' + v + ' as ', callee)
         for pat, fn in self.models:
             if re.search(pat, callee):
                 return ('model', fn)
@@ -857,7 +875,20 @@ class Interp:
             if kind == 'model':
                 val = target(self, args, callee)
             else:
-                val = self.call(target, args, depth + 1)
+                if not hasattr(self, 'subst'):
+                    self.subst = [{}]
+                new = dict(self.subst[-1])
+                mg = re.search(r'::<([^<>]*)>$', callee.strip())
+                if mg:
+                    params = self.fn_type_params(target)
+                    gargs = [a.strip() for a in mg.group(1).split(',') if not a.strip().startswith("'")]
+                    for pn, ga in zip(params, gargs):
+                        new[pn] = ga
+                self.subst.append(new)
+                try:
+                    val = self.call(target, args, depth + 1)
+                finally:
+                    self.subst.pop()
             if ret is None:
                 raise Unsupported('diverging call returned: ' + callee)
             if dest:
@@ -1069,7 +1100,7 @@ def model_bytes(m, n, name='b'):
         out.append(v.as_long())
     return bytes(out)
 
-SRC_ROOT = '/tmp/s/n2mir'
+SRC_ROOT = __import__('os').environ.get('SRC_ROOT', '/tmp/s/n2mir')
 
 def src_enums(root):
     import glob
